@@ -1,7 +1,7 @@
 (** Entry points for the extracted model: decoding of case files and encoding of
     observations, both over a generic tree type so that the OCaml driver only parses and
     prints trees. Nothing here is used by the theorems. *)
-From MowCli Require Import Base Lexer Parser Nfa Matchers Apply Values Flow Cmd.
+From MowCli Require Import Base Lexer Parser Nfa Matchers Apply Values Flow Cmd RefSem.
 
 Inductive sx := SA (s : str) | SL (l : list sx).
 
@@ -231,6 +231,65 @@ Definition e_run (x : sx) : sx :=
   let root := dec_cmd floats (sx_nth 3 x) in
   enc_result (run (float_of floats) (getenv_of env) (mkApp root ver) (sx_strs (sx_nth 4 x))).
 
+(** * Reference semantics as an oracle *)
+
+Definition rdecl_of (opts : list container) : rdecl :=
+  let D := optinfo_of opts in
+  mkRD (oi_lookup D) (oi_isbool D) (oi_fromenv D).
+
+Definition enc_verdict (v : verdict) : sx :=
+  SA (match v with Yes => lit "yes" | No => lit "no" | Unclaimed => lit "unclaimed" end).
+
+Definition dec_key (s : str) : key :=
+  match s with
+  | c :: _ :: n => (if Ascii.eqb c "o"%char then KO else KA)
+                     (match parse_int n with Some z => Z.to_nat z | None => 0 end)
+  | _ => KO 0
+  end.
+
+(** (floats env decls spec argv target); target = () or ((key (vals...)) ...) preceded by a flag
+    -> (status model-verdict R-greedy-lo R-greedy-hi R-ideal has_help has_q1 derivation-check) *)
+Definition e_sentence (x : sx) : sx :=
+  let floats := dec_pairs (sx_nth 0 x) in
+  let env := dec_pairs (sx_nth 1 x) in
+  let ds := map (dec_decl floats) (sx_list (sx_nth 2 x)) in
+  let spec := sx_str (sx_nth 3 x) in
+  let w := sx_strs (sx_nth 4 x) in
+  let tgt : target :=
+      match sx_list (sx_nth 5 x) with
+      | [] => None
+      | _ :: l => Some (map (fun p => (dec_key (sx_str (sx_nth 0 p)), sx_strs (sx_nth 1 p))) l)
+      end in
+  match declare (float_of floats) (getenv_of env) ds [] [] with
+  | inr m => SL [SA (lit "declpanic")]
+  | inl (opts, args) =>
+    let spec' := match spec with [] => default_spec opts args | _ => spec end in
+    match tokenize spec' with
+    | LexOk toks =>
+      match parse_tokens (lookup_name opts) (lookup_name args) (length spec') toks with
+      | ParseOk ast =>
+        let D := rdecl_of opts in
+        let n := length opts in
+        let mv := match compile opts args spec' with
+                  | IOk i => match fsm_apply (optinfo_of opts) (i_graph i) (i_start i) w with
+                             | AOk _ => lit "yes" | AFail => lit "no" | AFuel => lit "fuel" end
+                  | _ => lit "fuel"
+                  end in
+        SL [SA (lit "ok"); SA mv;
+            enc_verdict (r_match D (Greedy false) n ast w None);
+            enc_verdict (r_match D (Greedy true) n ast w None);
+            enc_verdict (r_match D Ideal n ast w None);
+            of_bool (has_help w); of_bool (has_q1 D w);
+            match tgt with
+            | None => SA []
+            | Some _ => enc_verdict (r_match D (Greedy true) n ast w tgt)
+            end]
+      | _ => SL [SA (lit "specerr")]
+      end
+    | _ => SL [SA (lit "specerr")]
+    end
+  end.
+
 (** dispatcher: (op payload) *)
 Definition e_dispatch (x : sx) : sx :=
   let op := sx_str (sx_nth 0 x) in
@@ -239,4 +298,5 @@ Definition e_dispatch (x : sx) : sx :=
   else if str_eqb op (lit "compile") then e_compile p
   else if str_eqb op (lit "match") then e_match p
   else if str_eqb op (lit "run") then e_run p
+  else if str_eqb op (lit "sentence") then e_sentence p
   else SL [SA (lit "unknown-op")].
